@@ -22,7 +22,22 @@ package checks
 //     full pages of the limit size; it must contain every identifier the world
 //     builder created exactly once; every (index,size) query must then be
 //     exactly the big-integer slice of that sequence, never longer than the
-//     limit.
+//     limit. A list of up to 256 elements is also walked with page size 1 to
+//     its end: that walk must equal the walk through full pages (a page does
+//     not depend on the page size), the advertised count must equal the number
+//     of elements delivered, and the size-1 walk is the reference the slices
+//     are taken from; a list of up to 24 elements is paged with every size up
+//     to its length and every index up to its end; longer lists are probed with
+//     single-element pages at their ends and at sampled positions.
+//   * per-object epoch histories (pillar epoch history, pillars by epoch, the
+//     four reward histories) are queried for every lifetime class and for
+//     unknown names: one entry per closed epoch, newest first; produced
+//     momentums equal the momentums of the reference chain whose producer is
+//     the pillar's address and whose timestamp lies in the epoch; the entry of
+//     (name, epoch) is the same in both pillar history calls and all-zero where
+//     the pillar is not listed; no entry / no reward for an epoch that was over
+//     before the object existed or that began an epoch after it was gone, some
+//     reward for an epoch a sentinel / staker / producing pillar lived through.
 //   * JSON: every block / momentum marshalled, unmarshalled, converted as
 //     PublishRawTransaction does, must give the same fields and hash; amounts
 //     are decimal strings.
@@ -100,7 +115,8 @@ func init() {
 	fw.Register(&fw.Check{
 		ID:    "C18",
 		Level: "exploration",
-		Rule: "one populated node per child (>1024 momentums, an account chain >1024 blocks, >500 unreceived blocks on one address, embedded objects of every kind); " +
+		Rule: "one populated node per child (>1024 momentums, an account chain >1024 blocks, >500 unreceived blocks on one address, embedded objects of every kind; reward epochs of 90 momentums, a dozen closed; pillars / sentinels / stakers / a delegator that exist from genesis, from the first epoch, only from a later epoch on, or only up to a revocation mid-history); " +
+			"every embedded list is walked through full pages and (up to 256 elements) with page size 1, lists of up to 24 elements are paged with every (index, size) up to their length; per-object epoch histories are queried for every lifetime class and for unknown names; " +
 			"cases are (API method, address/hash class, chunk of the parameter grid {0,1,2,limit-1,limit,limit+1,2^16,2^22,2^31-1,2^31,2^32-1,2^63,2^64-1} x itself plus wrap-targeted and PRNG values), " +
 			"JSON round trips over every block and momentum of the chain, and raw hostile request classes against rpc/server over HTTP and over a pipe codec, each followed by an honest request; " +
 			"distinct_nontrivial counts distinct (method, parameter class, outcome class) triples and distinct (transport, hostile request class, response class) triples that were actually observed",
@@ -113,6 +129,8 @@ func init() {
 			"the ledger is frozen while queries run (the statement is about the frontier; concurrent insertion is C14/C16 territory)",
 			"reference lists are read through the store accessors ByHeight / GetMomentumByHeight used as codecs; hashes are recomputed from an own pre-image",
 			"for embedded lists without a documented order the order of the API's own full pages is taken as the order; completeness is judged against the identifiers the world builder created",
+			"process globals of the simulated world: consensus.EpochDuration = 900 s (three election periods), constants.UpdateMinNumMomentums = 90, RewardTimeLimit = 150 s, pillar and sentinel lock windows of 600 s followed by an unbounded revoke window, StakeTimeUnitSec = one epoch; the number of closed epochs is read from each contract's LastEpochUpdate record (codec)",
+			"lifetimes are known to the builder as (frontier time before the request, frontier time after its confirmation); an epoch counts as outside a lifetime only if it ended before the first or began a full epoch after the second (elections lag), as inside only if it lies between them entirely; the reward of a delegator inside its lifetime is not judged (depends on balances and pillar shares); expected momentums, weights and reward amounts are not recomputed; liquidity stakes are not created (liquidity reward histories are paged, their amounts judged only for unknown addresses)",
 			"an error answer is accepted for any parameter outside the documented range (height 0, size/count above the limit, unreceived page index >= 10) and for nothing else",
 			"stats.* needs a running p2p server and host probes and is registered but not judged",
 			"transports: the HTTP handler stack is driven through ServeHTTP with a recorder and the stream codec through net.Pipe (what IPC and WebSocket connections use after their framing); no sockets, no WebSocket framing",
@@ -236,6 +254,15 @@ type c18World struct {
 	sentinelsAdded []types.Address
 	delegations    map[types.Address]string
 
+	// objects with a lifetime shorter than the chain (registered late, revoked / cancelled early)
+	pillarsRevoked   []string
+	sentinelsRevoked []types.Address
+	stakesCancelled  map[types.Address][]types.Hash
+	lives            []*c18Life
+	genesisTime      int64
+	lateEpoch        uint64 // epoch in which the late objects were registered
+	endEpoch         uint64 // epoch in which the short-lived objects were revoked / cancelled
+
 	ref *c18Ref
 
 	buildTime time.Duration
@@ -256,6 +283,8 @@ func c18GetWorld(c *fw.C) *c18World {
 			delegations:  map[types.Address]string{},
 			wrapsByTo:    map[string][]types.Hash{},
 			unwrapsByTo:  map[types.Address][]string{},
+
+			stakesCancelled: map[types.Address][]types.Hash{},
 		}
 		func() {
 			defer func() {
@@ -310,11 +339,24 @@ func c18Big(v int64) *big.Int { return big.NewInt(v) }
 func c18Zexp(v int64) *big.Int { return new(big.Int).Mul(big.NewInt(v), big.NewInt(g.Zexp)) }
 
 func (w *c18World) build(c *fw.C) {
-	consensus.EpochDuration = time.Hour
+	// short epochs (three election periods of 30 momentums), prompt contract updates and short lock windows:
+	// the chain of ~1100 momentums then spans a dozen closed reward epochs, and pillars / sentinels / stakes
+	// can end within it
+	consensus.EpochDuration = c18EpochMomentums * 10 * time.Second
+	constants.UpdateMinNumMomentums = 90
+	constants.RewardTimeLimit = 150
+	constants.PillarEpochLockTime = 600
+	constants.PillarEpochRevokeTime = 1 << 40
+	constants.SentinelLockTimeWindow = 600
+	constants.SentinelRevokeTimeWindow = 1 << 40
+	constants.StakeTimeUnitSec = int64(consensus.EpochDuration / time.Second)
+	constants.StakeTimeMinSec = constants.StakeTimeUnitSec
+	constants.StakeTimeMaxSec = constants.StakeTimeUnitSec * 12
 	dir := c.ScratchDir("c18-world")
 	w.n = simnet.Open("c18", dir, simnet.MockGenesis(), g.PillarKeys)
 	w.z = &c18Zenon{n: w.n}
 	n := w.n
+	w.genesisTime = n.Chain.GetGenesisMomentum().Timestamp.Unix()
 
 	// --- sporks: accelerator, htlc, bridge&liquidity (created, registered as implemented, activated)
 	names := []string{"spork-accelerator", "spork-htlc", "spork-bridge"}
@@ -412,6 +454,16 @@ func (w *c18World) build(c *fw.C) {
 		definition.ABISentinel.PackMethodPanic(definition.RegisterSentinelMethodName))
 	w.sentinelsAdded = append(w.sentinelsAdded, g.User1.Address)
 	w.mom(2)
+	for _, a := range []types.Address{g.Pillar4.Address, g.User1.Address} {
+		// present from the first epoch on
+		kind, name := "sentinel", ""
+		if a == g.Pillar4.Address {
+			kind, name = "pillar", g.Pillar4Name
+		}
+		w.lives = append(w.lives, &c18Life{kind: kind, class: "early", name: name, addr: a, startLo: w.genesisTime, startHi: w.now()})
+	}
+	// objects that will end before the chain does (see lateAndEarly)
+	w.beginShortLived()
 
 	// --- accelerator projects (+ votes), htlc entries
 	nProjects := 6
@@ -546,9 +598,9 @@ func (w *c18World) build(c *fw.C) {
 		}
 	}
 	// --- momentum chain beyond the page limit
-	need := int(api.RpcMaxPageSize) + 60 - int(n.Height())
-	if need > 0 {
-		w.mom(need)
+	w.lateAndEarly(int(api.RpcMaxPageSize) + 60)
+	if w.err != "" {
+		return
 	}
 
 	// --- leave some unconfirmed blocks at the end (sends and receives)
@@ -589,6 +641,181 @@ func (w *c18World) many(n, perMomentum int, mk func(i int) *nom.AccountBlock) {
 	}
 	if n > 0 {
 		w.mom(2)
+	}
+}
+
+// ---------------------------------------------------------------------------
+// objects whose lifetime is shorter than the chain
+
+// c18EpochMomentums: momentums per reward epoch in the simulated world (a multiple of the election period of 30).
+const c18EpochMomentums = 90
+
+// c18Life is what the builder knows about the lifetime of an object that earns epoch rewards. Times are unix
+// seconds of frontier momentums: the object came into existence somewhere in (startLo, startHi] and ceased to
+// exist somewhere in (endLo, endHi] (0: still exists at the frontier).
+type c18Life struct {
+	kind             string // pillar, sentinel, stake, delegator
+	class            string // early, late, ended, late-ended
+	name             string // pillar name (kind pillar, delegator)
+	addr             types.Address
+	startLo, startHi int64
+	endLo, endHi     int64
+}
+
+// before: the epoch [from,to) was over before the object existed.
+func (l *c18Life) before(from, to int64) bool { return to <= l.startLo }
+
+// after: the epoch began at least one epoch after the object had ceased to exist.
+func (l *c18Life) after(from, to int64) bool { return l.endHi != 0 && from >= l.endHi+(to-from) }
+
+// within: the object existed during the whole epoch.
+func (l *c18Life) within(from, to int64) bool {
+	return l.startHi <= from && (l.endLo == 0 || to <= l.endLo)
+}
+
+func (w *c18World) now() int64 { return w.n.Frontier().Timestamp.Unix() }
+
+// epochSpan: [from,to) of an epoch in unix seconds — genesis time plus multiples of the epoch length.
+func (w *c18World) epochSpan(epoch uint64) (int64, int64) {
+	d := int64(consensus.EpochDuration / time.Second)
+	return w.genesisTime + int64(epoch)*d, w.genesisTime + int64(epoch+1)*d
+}
+
+// toEpoch produces momentums until the frontier is offset momentums into the given epoch.
+func (w *c18World) toEpoch(epoch uint64, offset int) {
+	from, _ := w.epochSpan(epoch)
+	for i := 0; w.now() < from+int64(offset)*10; i++ {
+		if i > 4*c18EpochMomentums {
+			panic("toEpoch: the frontier does not advance")
+		}
+		w.mom(1)
+	}
+}
+
+// beginShortLived (first epoch): a pillar, a sentinel and a stake that will be revoked / cancelled mid-history.
+func (w *c18World) beginShortLived() {
+	lo := w.now()
+	w.send(g.Pillar6, types.PillarContract, types.QsrTokenStandard, c18Zexp(190000),
+		definition.ABIPillars.PackMethodPanic(definition.DepositQsrMethodName))
+	w.send(g.Pillar7, types.SentinelContract, types.QsrTokenStandard, constants.SentinelQsrDepositAmount,
+		definition.ABISentinel.PackMethodPanic(definition.DepositQsrMethodName))
+	st := w.send(g.User4, types.StakeContract, types.ZnnTokenStandard, c18Zexp(20),
+		definition.ABIStake.PackMethodPanic(definition.StakeMethodName, constants.StakeTimeMinSec))
+	w.stakesCancelled[g.User4.Address] = append(w.stakesCancelled[g.User4.Address], st.Hash)
+	w.mom(2)
+	w.send(g.Pillar6, types.PillarContract, types.ZnnTokenStandard, constants.PillarStakeAmount,
+		definition.ABIPillars.PackMethodPanic(definition.RegisterMethodName, g.Pillar6Name, g.Pillar6.Address, g.Pillar6.Address, uint8(20), uint8(80)))
+	w.send(g.Pillar7, types.SentinelContract, types.ZnnTokenStandard, constants.SentinelZnnRegisterAmount,
+		definition.ABISentinel.PackMethodPanic(definition.RegisterSentinelMethodName))
+	w.mom(2)
+	hi := w.now()
+	w.lives = append(w.lives,
+		&c18Life{kind: "pillar", class: "ended", name: g.Pillar6Name, addr: g.Pillar6.Address, startLo: lo, startHi: hi},
+		&c18Life{kind: "sentinel", class: "ended", addr: g.Pillar7.Address, startLo: lo, startHi: hi},
+		&c18Life{kind: "stake", class: "ended", addr: g.User4.Address, startLo: lo, startHi: hi},
+	)
+}
+
+// lateAndEarly fills the chain up to total momentums and places in it, at epoch granularity, objects that come
+// into existence after several epochs have been closed (a pillar with a delegator, a sentinel, a staker) and the
+// end of the short-lived ones, with several closed epochs after each event.
+func (w *c18World) lateAndEarly(total int) {
+	from0, _ := w.epochSpan(0)
+	cur := uint64((w.now() - from0) / int64(consensus.EpochDuration/time.Second))
+	late, end := cur+2, cur+4
+	w.lateEpoch, w.endEpoch = late, end
+	if min := int(end+4) * c18EpochMomentums; total < min {
+		total = min // at least three closed epochs after the last lifetime event
+	}
+
+	// --- late: registered in epoch `late`
+	w.toEpoch(late, 5)
+	lo := w.now()
+	w.send(g.Pillar5, types.PillarContract, types.QsrTokenStandard, c18Zexp(190000),
+		definition.ABIPillars.PackMethodPanic(definition.DepositQsrMethodName))
+	w.send(g.Pillar8, types.SentinelContract, types.QsrTokenStandard, constants.SentinelQsrDepositAmount,
+		definition.ABISentinel.PackMethodPanic(definition.DepositQsrMethodName))
+	st := w.send(g.User5, types.StakeContract, types.ZnnTokenStandard, c18Zexp(30),
+		definition.ABIStake.PackMethodPanic(definition.StakeMethodName, constants.StakeTimeMinSec*3))
+	w.stakesMade[g.User5.Address] = append(w.stakesMade[g.User5.Address], st.Hash)
+	w.mom(2)
+	w.send(g.Pillar5, types.PillarContract, types.ZnnTokenStandard, constants.PillarStakeAmount,
+		definition.ABIPillars.PackMethodPanic(definition.RegisterMethodName, g.Pillar5Name, g.Pillar5.Address, g.Pillar5.Address, uint8(10), uint8(90)))
+	w.pillarsAdded = append(w.pillarsAdded, g.Pillar5Name)
+	w.send(g.Pillar8, types.SentinelContract, types.ZnnTokenStandard, constants.SentinelZnnRegisterAmount,
+		definition.ABISentinel.PackMethodPanic(definition.RegisterSentinelMethodName))
+	w.sentinelsAdded = append(w.sentinelsAdded, g.Pillar8.Address)
+	w.mom(2)
+	w.send(g.User9, types.PillarContract, types.ZnnTokenStandard, c18Big(0),
+		definition.ABIPillars.PackMethodPanic(definition.DelegateMethodName, g.Pillar5Name))
+	w.delegations[g.User9.Address] = g.Pillar5Name
+	w.mom(2)
+	hi := w.now()
+	w.lives = append(w.lives,
+		&c18Life{kind: "pillar", class: "late", name: g.Pillar5Name, addr: g.Pillar5.Address, startLo: lo, startHi: hi},
+		&c18Life{kind: "sentinel", class: "late", addr: g.Pillar8.Address, startLo: lo, startHi: hi},
+		&c18Life{kind: "stake", class: "late", addr: g.User5.Address, startLo: lo, startHi: hi},
+		&c18Life{kind: "delegator", class: "late", name: g.Pillar5Name, addr: g.User9.Address, startLo: lo, startHi: hi},
+	)
+
+	// --- end: revoked / cancelled in epoch `end`
+	w.toEpoch(end, 5)
+	lo = w.now()
+	w.send(g.Pillar6, types.PillarContract, types.ZnnTokenStandard, c18Big(0),
+		definition.ABIPillars.PackMethodPanic(definition.RevokeMethodName, g.Pillar6Name))
+	w.pillarsRevoked = append(w.pillarsRevoked, g.Pillar6Name)
+	w.send(g.Pillar7, types.SentinelContract, types.ZnnTokenStandard, c18Big(0),
+		definition.ABISentinel.PackMethodPanic(definition.RevokeSentinelMethodName))
+	w.sentinelsRevoked = append(w.sentinelsRevoked, g.Pillar7.Address)
+	for _, id := range w.stakesCancelled[g.User4.Address] {
+		w.send(g.User4, types.StakeContract, types.ZnnTokenStandard, c18Big(0),
+			definition.ABIStake.PackMethodPanic(definition.CancelStakeMethodName, id))
+	}
+	w.mom(2)
+	hi = w.now()
+	// (a cancelled stake entry is deleted when the rewards of the epoch of its cancellation are distributed: look now)
+	_, kctx, err := api.GetFrontierContext(w.n.Chain, types.StakeContract)
+	if err != nil {
+		panic(err)
+	}
+	for _, id := range w.stakesCancelled[g.User4.Address] {
+		if s, err := definition.GetStakeInfo(kctx.Storage(), id, g.User4.Address); err != nil || s == nil || s.RevokeTime == 0 {
+			w.fail("short-lived stake was not made and cancelled (err=%v)", err)
+		}
+	}
+	for _, l := range w.lives {
+		if l.class == "ended" {
+			l.endLo, l.endHi = lo, hi
+		}
+	}
+
+	if need := total - int(w.n.Height()); need > 0 {
+		w.mom(need)
+	}
+
+	// --- did the contracts do what was planned? (storage read through the definition codecs)
+	_, pctx, err := api.GetFrontierContext(w.n.Chain, types.PillarContract)
+	if err != nil {
+		panic(err)
+	}
+	if p, err := definition.GetPillarInfo(pctx.Storage(), g.Pillar5Name); err != nil || p == nil || p.RevokeTime != 0 {
+		w.fail("late pillar was not registered (err=%v)", err)
+	}
+	if p, err := definition.GetPillarInfo(pctx.Storage(), g.Pillar6Name); err != nil || p == nil || p.RevokeTime == 0 {
+		w.fail("short-lived pillar was not registered and revoked (err=%v)", err)
+	}
+	_, sctx, err := api.GetFrontierContext(w.n.Chain, types.SentinelContract)
+	if err != nil {
+		panic(err)
+	}
+	if s := definition.GetSentinelInfoByOwner(sctx.Storage(), g.Pillar8.Address); s == nil || s.RevokeTimestamp != 0 {
+		w.fail("late sentinel was not registered")
+	}
+	if s := definition.GetSentinelInfoByOwner(sctx.Storage(), g.Pillar7.Address); s == nil || s.RevokeTimestamp == 0 {
+		w.fail("short-lived sentinel was not registered and revoked")
+	}
+	if last, err := definition.GetLastEpochUpdate(pctx.Storage()); err != nil || uint64(last.LastEpoch) < end+2 {
+		w.fail("too few closed epochs after the last lifetime event (err=%v)", err)
 	}
 }
 
@@ -1141,6 +1368,8 @@ func c18Run(c *fw.C, caseID string) {
 	c.Note("world", map[string]interface{}{
 		"momentums": w.ref.frontier, "addresses": len(w.ref.addrs), "user1_chain": len(w.ref.chains[g.User1.Address]),
 		"user10_pending": len(w.ref.pendingOf(g.User10.Address)), "account_blocks": len(w.ref.blockByHash), "build_s": w.buildTime.Seconds(),
+		"momentums_per_epoch": c18EpochMomentums, "closed_epochs_pillar": e.closedEpochs(types.PillarContract), "closed_epochs_stake": e.closedEpochs(types.StakeContract),
+		"late_objects_registered_in_epoch": w.lateEpoch, "short_lived_objects_ended_in_epoch": w.endEpoch,
 	})
 	switch parts[0] {
 	case "ledger":
@@ -2334,7 +2563,13 @@ type c18Lister struct {
 	precedes  func(a, b interface{}) bool // documented order: a may come before b
 	// errOK: an error for in-range parameters that is accepted for this lister (must be the only answer then)
 	errOK func(err error) bool
+	// audit: independent expectations about the content of the whole list (called once with the canonical walk)
+	audit func(ids []string, elems []interface{})
 }
+
+// c18FineWalk: lists up to this length are also walked one element at a time; longer ones are probed with
+// single-element pages at sampled positions.
+const c18FineWalk = 256
 
 func (e *c18Env) marshal(method string, v interface{}) (string, bool) {
 	var out []byte
@@ -2401,6 +2636,108 @@ func (e *c18Env) runLister(l *c18Lister, chunk int) {
 			break
 		}
 	}
+	// 1b. the same list one element per page: what a page holds must not depend on the page size
+	fineComplete := false
+	if len(seq) <= c18FineWalk && total <= c18FineWalk {
+		var fine []string
+		var fineElems []interface{}
+		var fineJSON []string
+		bound := len(seq) + 2
+		if int(total)+2 > bound {
+			bound = int(total) + 2
+		}
+		ok := true
+		for page := 0; page < bound; page++ {
+			var p *c18Page
+			var err error
+			params := map[string]interface{}{"fixed": fixed, "pageIndex": page, "pageSize": 1}
+			if e.guard(method, params, func() { p, err = l.call(uint32(page), 1) }) {
+				return
+			}
+			e.c.Eval(1)
+			if err != nil || p == nil {
+				e.violation("unexpected-error "+method, map[string]interface{}{"params": params, "error": fmt.Sprint(err)})
+				ok = false
+				break
+			}
+			if len(p.ids) > 1 {
+				e.violation("page-size-exceeded "+method, map[string]interface{}{"params": params, "returned": len(p.ids)})
+				ok = false
+				break
+			}
+			if p.count != total || p.extra != extra {
+				e.violation("wrong-count "+method, map[string]interface{}{"params": params, "count": p.count, "count_on_first_page": total, "totals": p.extra, "totals_on_first_page": extra})
+			}
+			if len(p.ids) == 0 {
+				break
+			}
+			fine = append(fine, p.ids[0])
+			fineElems = append(fineElems, p.elems[0])
+			js, _ := e.marshal(method, p.elems[0])
+			fineJSON = append(fineJSON, js)
+		}
+		if ok {
+			fineComplete = true
+			e.c.Count("walks_one_element_per_page", 1)
+			diff := -1
+			for i := 0; i < len(fine) || i < len(seq); i++ {
+				if i >= len(fine) || i >= len(seq) || fine[i] != seq[i] {
+					diff = i
+					break
+				}
+			}
+			if diff >= 0 {
+				e.violation("page-size-dependent "+method, map[string]interface{}{
+					"fixed": fixed, "what": "walking the list with page size 1 and with the limit as page size gives different lists",
+					"elements_by_size_1": len(fine), "elements_by_full_pages": len(seq), "count": total, "first_difference_at": diff,
+					"by_size_1": c18Head(fine, 16), "by_full_pages": c18Head(seq, 16),
+				})
+			} else {
+				for i := range fine {
+					if fineJSON[i] != seqJSON[i] {
+						e.violation("element-mismatch "+method+" content-differs-between-pages", map[string]interface{}{"fixed": fixed, "identifier": fine[i], "by_size_1": fineJSON[i], "on_full_page": seqJSON[i]})
+						break
+					}
+				}
+			}
+			// the finest walk is the reference for everything below
+			seq, seqElems, seqJSON = fine, fineElems, fineJSON
+		}
+	} else {
+		// long list: single-element pages at the ends and at sampled positions
+		n := len(seq)
+		probes := []int{0, 1, n / 2, n - 2, n - 1, n, n + 1, l.limit - 1, l.limit, l.limit + 1}
+		for i := 0; i < 24; i++ {
+			probes = append(probes, e.r.Intn(n+1))
+		}
+		for _, at := range probes {
+			if at < 0 {
+				continue
+			}
+			var p *c18Page
+			var err error
+			params := map[string]interface{}{"fixed": fixed, "pageIndex": at, "pageSize": 1}
+			if e.guard(method, params, func() { p, err = l.call(uint32(at), 1) }) {
+				return
+			}
+			e.c.Eval(1)
+			if err != nil || p == nil {
+				e.violation("unexpected-error "+method, map[string]interface{}{"params": params, "error": fmt.Sprint(err)})
+				continue
+			}
+			var want []string
+			if at < n {
+				want = seq[at : at+1]
+			}
+			if len(p.ids) != len(want) || (len(want) == 1 && p.ids[0] != want[0]) {
+				e.violation("page-size-dependent "+method, map[string]interface{}{
+					"params": params, "what": "a single-element page differs from the same position of the list walked through full pages",
+					"returned": p.ids, "expected": want,
+				})
+			}
+		}
+		e.c.Count("probes_one_element_per_page", len(probes))
+	}
 	universe := map[string]bool{}
 	dup := ""
 	for _, id := range seq {
@@ -2440,9 +2777,21 @@ func (e *c18Env) runLister(l *c18Lister, chunk int) {
 		pos[id] = i
 	}
 	e.c.Distinct(fmt.Sprintf("%s/%s/canonical-n=%s", method, l.label, c18ParamClass(uint64(n), uint64(l.limit))))
+	if l.audit != nil {
+		l.audit(seq, seqElems)
+	}
 
-	// 2. the grid
-	for _, pr := range e.pairs(chunk, c18Grid32(uint64(l.limit)), 32, n, uint64(l.limit), 110) {
+	// 2. the grid; a short list is also paged with every size up to its length and every index up to its end
+	prs := e.pairs(chunk, c18Grid32(uint64(l.limit)), 32, n, uint64(l.limit), 110)
+	if fineComplete && n >= 2 && n <= 24 && chunk == 0 {
+		for size := 1; size <= n+1; size++ {
+			for idx := 0; idx <= (n+size-1)/size; idx++ {
+				prs = append(prs, [2]uint64{uint64(idx), uint64(size)})
+			}
+		}
+		e.c.Count("short_lists_paged_exhaustively", 1)
+	}
+	for _, pr := range prs {
 		idx, size := uint32(pr[0]), uint32(pr[1])
 		params := map[string]interface{}{"fixed": fixed, "pageIndex": idx, "pageSize": size}
 		var p *c18Page
@@ -2628,7 +2977,9 @@ func c18EmbToken(e *c18Env, chunk int) {
 
 func c18EmbStake(e *c18Env, chunk int) {
 	w := e.w
-	for _, oc := range e.ownerClasses() {
+	// besides the usual owners: a staker that joined late and one whose only stake was cancelled mid-history
+	owners := append(e.ownerClasses(), c18Addr{"late", g.User5.Address}, c18Addr{"ended", g.User4.Address})
+	for _, oc := range owners {
 		addr := oc.addr
 		var created []string
 		for _, h := range w.stakesMade[addr] {
@@ -2749,6 +3100,38 @@ func c18EmbPlasma(e *c18Env, chunk int) {
 	}
 }
 
+// closedEpochs: number of reward epochs the contract has closed (its LastEpochUpdate record, read through the
+// definition codec), 0 when it never updated.
+func (e *c18Env) closedEpochs(contract types.Address) int64 {
+	_, ctx, err := api.GetFrontierContext(e.w.n.Chain, contract)
+	if err != nil {
+		return 0
+	}
+	last, err := definition.GetLastEpochUpdate(ctx.Storage())
+	if err != nil || last == nil {
+		return 0
+	}
+	return last.LastEpoch + 1
+}
+
+// producedByEpoch counts the momentums of the reference chain by (epoch of the momentum's timestamp, producer
+// address); the genesis momentum has no producer.
+func (e *c18Env) producedByEpoch() map[uint64]map[types.Address]int {
+	out := map[uint64]map[types.Address]int{}
+	d := int64(consensus.EpochDuration / time.Second)
+	for _, m := range e.w.ref.moms {
+		if m.Height == 1 {
+			continue
+		}
+		ep := uint64((m.Timestamp.Unix() - e.w.genesisTime) / d)
+		if out[ep] == nil {
+			out[ep] = map[types.Address]int{}
+		}
+		out[ep][m.Producer()]++
+	}
+	return out
+}
+
 // ---- pillar
 
 func c18EmbPillar(e *c18Env, chunk int) {
@@ -2779,8 +3162,28 @@ func c18EmbPillar(e *c18Env, chunk int) {
 			return (c > 0 || (c == 0 && x.Name < y.Name)) && x.Rank+1 == y.Rank
 		},
 	}, chunk)
-	// single lookups
-	for _, nm := range append([]string{"", "no-such-pillar", "TEST-pillar-1\x00"}, names...) {
+	// single lookups and per-pillar histories: active pillars (genesis, early, late), revoked ones, unknown names
+	taken := append(append([]string{}, names...), w.pillarsRevoked...)
+	closed, produced := e.closedEpochs(types.PillarContract), e.producedByEpoch()
+	byEpoch := map[uint64]map[string]string{} // epoch -> name -> JSON of the entry in getPillarsHistoryByEpoch
+	for ep := uint64(0); int64(ep) < closed; ep++ {
+		byEpoch[ep] = map[string]string{}
+		if l, err := w.pillarApi.GetPillarsHistoryByEpoch(ep, 0, uint32(c18Limit)); err == nil && l != nil {
+			for _, s := range l.List {
+				if s != nil {
+					byEpoch[ep][s.Name], _ = e.marshal("embedded.pillar.getPillarsHistoryByEpoch", s)
+				}
+			}
+		}
+	}
+	producerOf := map[string]types.Address{g.Pillar1Name: g.Pillar1.Address, g.Pillar2Name: g.Pillar2.Address, g.Pillar3Name: g.Pillar3.Address}
+	lifeOf := map[string]*c18Life{}
+	for _, l := range w.lives {
+		if l.kind == "pillar" {
+			producerOf[l.name], lifeOf[l.name] = l.addr, l
+		}
+	}
+	for _, nm := range append([]string{"", "no-such-pillar", "TEST-pillar-1\x00"}, taken...) {
 		name := nm
 		{
 			const method = "embedded.pillar.getByName"
@@ -2808,15 +3211,69 @@ func c18EmbPillar(e *c18Env, chunk int) {
 				for _, k := range names {
 					known = known || k == name
 				}
+				for _, k := range w.pillarsRevoked {
+					known = known || k == name // the name of a revoked pillar stays taken
+				}
 				if err != nil || free == known {
 					e.violation("wrong-answer "+method, map[string]interface{}{"name": name, "available": free, "registered": known, "error": fmt.Sprint(err)})
 				}
 				e.c.Distinct(fmt.Sprintf("%s/%v", method, free))
 			}
 		}
-		// epoch history of one pillar
+		// epoch history of one pillar: one entry per closed epoch, newest first, whether or not the pillar existed then
+		label, life := "unknown", lifeOf[name]
+		switch {
+		case life != nil:
+			label = life.class
+		case producerOf[name] != types.Address{}:
+			label = "genesis"
+		}
+		e.c.SetAdd("pillar_history_lifetimes", label)
+		var everyEpoch []string
+		for ep := closed - 1; ep >= 0; ep-- {
+			everyEpoch = append(everyEpoch, fmt.Sprintf("epoch-%d", ep))
+		}
 		e.runLister(&c18Lister{
-			method: "embedded.pillar.getPillarEpochHistory", label: "name", fixed: name, limit: int(c18Limit), wantCount: -1,
+			method: "embedded.pillar.getPillarEpochHistory", label: label, fixed: name, limit: int(c18Limit), created: everyEpoch, wantCount: int(closed),
+			audit: func(ids []string, elems []interface{}) {
+				const method = "embedded.pillar.getPillarEpochHistory"
+				for _, el := range elems {
+					h, _ := el.(*definition.PillarEpochHistory)
+					if h == nil || int64(h.Epoch) >= closed {
+						continue
+					}
+					e.c.Eval(1)
+					// (1) momentums the chain holds from this pillar's producer address in that epoch
+					want := 0
+					if a, ok := producerOf[name]; ok {
+						want = produced[h.Epoch][a]
+					}
+					if int(h.ProducedBlockNum) != want {
+						e.violation("element-mismatch "+method+" produced-momentums", map[string]interface{}{"name": name, "lifetime": label, "entry": h, "momentums_of_the_producer_in_that_epoch": want})
+					}
+					if want > 0 {
+						e.c.Count("pillar_history_entries_with_production", 1)
+					} else {
+						e.c.Count("pillar_history_entries_without_production", 1)
+					}
+					// (2) the same (epoch, name) as listed by getPillarsHistoryByEpoch; no entry there: all-zero entry here
+					js, _ := e.marshal(method, h)
+					if other, ok := byEpoch[h.Epoch][name]; ok {
+						if js != other {
+							e.violation("element-mismatch "+method+" differs-from-getPillarsHistoryByEpoch", map[string]interface{}{"name": name, "lifetime": label, "entry": js, "by_epoch": other})
+						}
+					} else if h.ProducedBlockNum != 0 || h.ExpectedBlockNum != 0 || (h.Weight != nil && h.Weight.Sign() != 0) || h.GiveBlockRewardPercentage != 0 || h.GiveDelegateRewardPercentage != 0 {
+						e.violation("element-mismatch "+method+" entry-for-an-epoch-without-the-pillar", map[string]interface{}{"name": name, "lifetime": label, "entry": js})
+					}
+					// (3) lifetime: nothing before the pillar existed, nothing after it was gone
+					if life != nil {
+						from, to := w.epochSpan(h.Epoch)
+						if _, listed := byEpoch[h.Epoch][name]; listed && (life.before(from, to) || life.after(from, to)) {
+							e.violation("element-mismatch "+method+" entry-outside-lifetime", map[string]interface{}{"name": name, "lifetime": label, "entry": js, "registered_after": life.startLo, "gone_before": life.endHi, "epoch_from": from, "epoch_to": to})
+						}
+					}
+				}
+			},
 			call: func(idx, size uint32) (*c18Page, error) {
 				l, err := w.pillarApi.GetPillarEpochHistory(name, idx, size)
 				if l == nil {
@@ -2842,7 +3299,7 @@ func c18EmbPillar(e *c18Env, chunk int) {
 		}, chunk)
 	}
 	owners := e.ownerClasses()
-	owners = append(owners, c18Addr{"pillar4", g.Pillar4.Address})
+	owners = append(owners, c18Addr{"pillar4", g.Pillar4.Address}, c18Addr{"pillar-late", g.Pillar5.Address}, c18Addr{"pillar-revoked", g.Pillar6.Address})
 	for _, oc := range owners {
 		addr := oc.addr
 		{
@@ -2852,7 +3309,7 @@ func c18EmbPillar(e *c18Env, chunk int) {
 			if !e.guard(method, addr.String(), func() { l, err = w.pillarApi.GetByOwner(addr) }) {
 				e.c.Eval(1)
 				want := 0
-				for _, kp := range []types.Address{g.Pillar1.Address, g.Pillar2.Address, g.Pillar3.Address, g.Pillar4.Address} {
+				for _, kp := range []types.Address{g.Pillar1.Address, g.Pillar2.Address, g.Pillar3.Address, g.Pillar4.Address, g.Pillar5.Address} {
 					if kp == addr {
 						want = 1
 					}
@@ -2863,7 +3320,7 @@ func c18EmbPillar(e *c18Env, chunk int) {
 				e.c.Distinct(fmt.Sprintf("%s/%d", method, len(l)))
 			}
 		}
-		for _, a := range []types.Address{addr, g.User6.Address, g.User7.Address, g.User4.Address} {
+		for _, a := range []types.Address{addr, g.User6.Address, g.User7.Address, g.User4.Address, g.User9.Address} {
 			const method = "embedded.pillar.getDelegatedPillar"
 			a := a
 			var d *embedded.GetDelegatedPillarResponse
@@ -2915,7 +3372,11 @@ func c18EmbPillar(e *c18Env, chunk int) {
 	if err != nil {
 		return
 	}
-	epochs := []uint64{0, 1, 2, uint64(last.LastEpoch), uint64(last.LastEpoch) + 1, 1 << 31, 1 << 32, 1 << 63, math.MaxUint64}
+	var epochs []uint64
+	for ep := int64(0); ep <= last.LastEpoch; ep++ {
+		epochs = append(epochs, uint64(ep))
+	}
+	epochs = append(epochs, uint64(last.LastEpoch)+1, 1<<31, 1<<32, 1<<63, math.MaxUint64)
 	for _, ep := range epochs {
 		epoch := ep
 		label := "past"
@@ -2926,8 +3387,41 @@ func c18EmbPillar(e *c18Env, chunk int) {
 		if label == "future" {
 			want = 0
 		}
+		// independent expectations: whoever produced a momentum in the epoch is listed; nobody is listed for an
+		// epoch that was over before it registered or that began an epoch after it was revoked
+		var mustList []string
+		if label == "past" {
+			for nm, a := range producerOf {
+				if produced[epoch][a] > 0 {
+					mustList = append(mustList, nm)
+				}
+			}
+			sort.Strings(mustList)
+		}
 		e.runLister(&c18Lister{
-			method: "embedded.pillar.getPillarsHistoryByEpoch", label: label, fixed: fmt.Sprint(epoch), limit: int(c18Limit), wantCount: want,
+			method: "embedded.pillar.getPillarsHistoryByEpoch", label: label, fixed: fmt.Sprint(epoch), limit: int(c18Limit), wantCount: want, created: mustList,
+			audit: func(ids []string, elems []interface{}) {
+				const method = "embedded.pillar.getPillarsHistoryByEpoch"
+				from, to := w.epochSpan(epoch)
+				for _, el := range elems {
+					h, _ := el.(*definition.PillarEpochHistory)
+					if h == nil {
+						continue
+					}
+					e.c.Eval(1)
+					a, known := producerOf[h.Name]
+					if !known {
+						e.violation("foreign-elements "+method, map[string]interface{}{"epoch": fmt.Sprint(epoch), "entry": h, "what": "no pillar of that name was ever registered"})
+						continue
+					}
+					if int(h.ProducedBlockNum) != produced[epoch][a] {
+						e.violation("element-mismatch "+method+" produced-momentums", map[string]interface{}{"epoch": fmt.Sprint(epoch), "entry": h, "momentums_of_the_producer_in_that_epoch": produced[epoch][a]})
+					}
+					if life := lifeOf[h.Name]; life != nil && (life.before(from, to) || life.after(from, to)) {
+						e.violation("element-mismatch "+method+" entry-outside-lifetime", map[string]interface{}{"epoch": fmt.Sprint(epoch), "lifetime": life.class, "entry": h, "registered_after": life.startLo, "gone_before": life.endHi, "epoch_from": from, "epoch_to": to})
+					}
+				}
+			},
 			call: func(idx, size uint32) (*c18Page, error) {
 				l, err := w.pillarApi.GetPillarsHistoryByEpoch(epoch, idx, size)
 				if l == nil {
@@ -2978,21 +3472,27 @@ func c18EmbSentinel(e *c18Env, chunk int) {
 			return p, err
 		},
 	}, chunk)
-	for _, oc := range e.ownerClasses() {
+	// besides the usual owners: a sentinel registered late and one revoked mid-history (its record stays, inactive)
+	owners := append(e.ownerClasses(), c18Addr{"late", g.Pillar8.Address}, c18Addr{"revoked", g.Pillar7.Address})
+	for _, oc := range owners {
 		addr := oc.addr
 		const method = "embedded.sentinel.getByOwner"
 		var s *embedded.SentinelInfo
 		var err error
 		if !e.guard(method, addr.String(), func() { s, err = w.sentinel.GetByOwner(addr) }) {
 			e.c.Eval(1)
-			want := false
+			want, active := false, false
 			for _, a := range w.sentinelsAdded {
 				want = want || a == addr
+				active = active || a == addr
 			}
-			if err != nil || want != (s != nil) || (s != nil && s.Owner != addr) {
-				e.violation("wrong-answer "+method, map[string]interface{}{"address": addr.String(), "got": s, "error": fmt.Sprint(err)})
+			for _, a := range w.sentinelsRevoked {
+				want = want || a == addr
 			}
-			e.c.Distinct(fmt.Sprintf("%s/%v", method, s != nil))
+			if err != nil || want != (s != nil) || (s != nil && (s.Owner != addr || s.Active != active)) {
+				e.violation("wrong-answer "+method, map[string]interface{}{"address": addr.String(), "got": s, "registered": want, "active": active, "error": fmt.Sprint(err)})
+			}
+			e.c.Distinct(fmt.Sprintf("%s/%v/%v", method, s != nil, s != nil && s.Active))
 		}
 		for _, m := range []struct {
 			name string
@@ -3151,6 +3651,8 @@ func c18EmbRewards(e *c18Env, chunk int) {
 		{"embedded.liquidity.getFrontierRewardByPage", types.LiquidityContract, w.liquidity.GetFrontierRewardByPage},
 	}
 	addrs := []c18Addr{{"user1", g.User1.Address}, {"pillar", g.Pillar1.Address}, {"unknown", e.randomAddress()}}
+	produced := e.producedByEpoch()
+	kindOf := map[types.Address]string{types.PillarContract: "pillar", types.StakeContract: "stake", types.SentinelContract: "sentinel"}
 	for _, s := range srcs {
 		s := s
 		_, ctx, err := api.GetFrontierContext(w.n.Chain, s.contract)
@@ -3164,10 +3666,29 @@ func c18EmbRewards(e *c18Env, chunk int) {
 		} else {
 			neverUpdated = true
 		}
+		// the objects of this contract with a known lifetime: present from the first epoch, late, ended early
+		type subject struct {
+			c18Addr
+			life *c18Life
+		}
+		var subjects []subject
 		for _, ac := range addrs {
-			addr := ac.addr
+			subjects = append(subjects, subject{ac, nil})
+		}
+		for _, l := range w.lives {
+			if l.kind == kindOf[s.contract] || (l.kind == "delegator" && s.contract == types.PillarContract) {
+				subjects = append(subjects, subject{c18Addr{l.kind + "-" + l.class, l.addr}, l})
+			}
+		}
+		for _, sj := range subjects {
+			addr, life, class := sj.addr, sj.life, sj.class
+			var everyEpoch []string
+			for ep := want - 1; ep >= 0; ep-- {
+				everyEpoch = append(everyEpoch, fmt.Sprintf("epoch-%d", ep))
+			}
+			e.c.SetAdd("reward_history_subjects", s.name[len("embedded."):]+" "+class)
 			e.runLister(&c18Lister{
-				method: s.name, label: ac.class, fixed: addr.String(), limit: int(c18Limit), wantCount: want,
+				method: s.name, label: class, fixed: addr.String(), limit: int(c18Limit), wantCount: want, created: everyEpoch,
 				call: func(idx, size uint32) (*c18Page, error) {
 					l, err := s.call(addr, idx, size)
 					if l == nil {
@@ -3188,6 +3709,41 @@ func c18EmbRewards(e *c18Env, chunk int) {
 					return a.(*embedded.RewardHistoryEntry).Epoch == b.(*embedded.RewardHistoryEntry).Epoch+1
 				},
 				errOK: func(err error) bool { return neverUpdated },
+				// rewards against the lifetime: none for an epoch that was over before the object existed or that
+				// began an epoch after it was gone (and never for an address unknown to the chain); some for an
+				// epoch the object lived through entirely (a pillar: if it produced a momentum in it)
+				audit: func(ids []string, elems []interface{}) {
+					for _, el := range elems {
+						r, _ := el.(*embedded.RewardHistoryEntry)
+						if r == nil || r.Epoch < 0 || r.Znn == nil || r.Qsr == nil {
+							continue
+						}
+						e.c.Eval(1)
+						from, to := w.epochSpan(uint64(r.Epoch))
+						some := r.Znn.Sign() != 0 || r.Qsr.Sign() != 0
+						switch {
+						case class == "unknown" || (life != nil && (life.before(from, to) || life.after(from, to))):
+							if some {
+								e.violation("element-mismatch "+s.name+" reward-outside-lifetime", map[string]interface{}{"address": addr.String(), "subject": class, "entry": r, "life": fmt.Sprintf("%+v", life), "epoch_from": from, "epoch_to": to})
+							}
+							e.c.Count("reward_entries_outside_lifetime", 1)
+						case life != nil && life.within(from, to):
+							earns := true
+							if life.kind == "pillar" {
+								earns = produced[uint64(r.Epoch)][life.addr] > 0
+							}
+							if life.kind == "delegator" {
+								earns = false // depends on balances and on the pillar's shares: not judged
+							}
+							if earns && !some {
+								e.violation("element-mismatch "+s.name+" no-reward-inside-lifetime", map[string]interface{}{"address": addr.String(), "subject": class, "entry": r, "life": fmt.Sprintf("%+v", life), "epoch_from": from, "epoch_to": to})
+							}
+							if earns {
+								e.c.Count("reward_entries_inside_lifetime", 1)
+							}
+						}
+					}
+				},
 			}, chunk)
 		}
 	}
